@@ -597,6 +597,10 @@ def random_history(rng, ncalls, fault_rate, alphabet=None, devs=("ebb_ok",), sta
                     m, a = "var_write_int32", [v, sl]
                     pending = [tuple(other), ("var_write_int32", [v, sl], ""), ("var_read_int32", [sl], "")]
                     pending = [p for p in pending if p[0] in alphabet]
+                elif m not in ("connect", "disconnect", "reboot", "bootload", "record_error") and rng.random() < 0.12:
+                    # the same request again, verbatim (optionally after one other request): every request transmits, whatever the object
+                    # remembers of earlier ones ("exactly once" is per request, not per distinct request)
+                    pending = ([random_call(rng, alphabet)] if rng.random() < 0.3 else []) + [(m, list(a), s)]
             script.append([m, a, s])
             calls.append(sess.run_call(m, a, s, ws=rng.randint(0, 3)))
     finally:
